@@ -68,6 +68,71 @@ fn http_seed(method: &str, uri: &str, headers: Vec<(&str, &str)>, body: Value, p
     j(json!({"method": method, "uri": uri, "headers": headers.iter().map(|(k, v)| json!([k, v.as_bytes()])).collect::<Vec<_>>(), "body": serde_json::to_vec(&body).unwrap(), "path_args": path_args}))
 }
 
+/// A structured HTTP payload whose body is given as raw bytes (multipart, media).
+fn http_seed_raw(method: &str, uri: &str, headers: Vec<(&str, &str)>, body: &[u8]) -> Vec<u8> {
+    j(json!({"method": method, "uri": uri, "headers": headers.iter().map(|(k, v)| json!([k, v.as_bytes()])).collect::<Vec<_>>(), "body": body, "path_args": []}))
+}
+
+/// Structure-level mutations of a multipart body: the segments between boundary lines are deleted,
+/// emptied, duplicated or swapped, a boundary line is doubled, CRs are dropped, the final `--` is
+/// removed; `boundary` is the delimiter text without the leading dashes.
+fn mutate_multipart(body: &[u8], boundary: &[u8], ops: &[(u8, u16, u16)]) -> Vec<u8> {
+    let mut delim = b"\r\n--".to_vec();
+    delim.extend_from_slice(boundary);
+    // cut the body at every occurrence of the delimiter (the first may lack its CRLF)
+    let mut cuts = vec![0usize];
+    let mut i = 0;
+    while i + boundary.len() + 2 <= body.len() {
+        if body[i..].starts_with(&delim) || (i == 0 && body.starts_with(&delim[2..])) {
+            if i != 0 {
+                cuts.push(i);
+            }
+            i += boundary.len() + 2;
+        } else {
+            i += 1;
+        }
+    }
+    cuts.push(body.len());
+    let mut segs: Vec<Vec<u8>> = cuts.windows(2).map(|w| body[w[0]..w[1]].to_vec()).collect();
+    for (op, x, y) in ops {
+        if segs.is_empty() {
+            break;
+        }
+        let i = pick_idx(*x, segs.len());
+        match op % 7 {
+            0 => {
+                segs.remove(i);
+            }
+            1 => {
+                // keep only the delimiter itself: an empty part
+                let keep = (delim.len() - if segs[i].starts_with(b"\r\n") { 0 } else { 2 }).min(segs[i].len());
+                segs[i].truncate(keep);
+            }
+            2 => {
+                let s = segs[i].clone();
+                segs.insert(i, s);
+            }
+            3 => {
+                let k = pick_idx(*y, segs.len());
+                segs.swap(i, k);
+            }
+            4 => segs[i].retain(|b| *b != b'\r'),
+            5 => {
+                if let Some(last) = segs.last_mut() {
+                    while last.last().is_some_and(|b| *b == b'-' || *b == b'\r' || *b == b'\n') {
+                        last.pop();
+                    }
+                }
+            }
+            _ => {
+                let k = pick_idx(*y, segs[i].len() + 1);
+                segs[i].truncate(k);
+            }
+        }
+    }
+    segs.concat()
+}
+
 fn seeds(ep: &str) -> Vec<Vec<u8>> {
     let s = |v: &[&str]| v.iter().map(|x| x.as_bytes().to_vec()).collect::<Vec<_>>();
     let ring_doc: Vec<u8> = {
@@ -135,6 +200,10 @@ fn seeds(ep: &str) -> Vec<Vec<u8>> {
         "http_fed_send_join" => vec![http_seed("PUT", "https://hs/_matrix/federation/v2/send_join/!r:x.y/$e:x.y?omit_members=true", vec![("authorization", "X-Matrix origin=a.b,key=\"ed25519:1\",sig=\"c2ln\"")], event_seeds()[1].clone(), vec!["!r:x.y", "$e:x.y"])],
         "http_fed_transaction" => vec![http_seed("PUT", "https://hs/_matrix/federation/v1/send/txn", vec![], json!({"origin": "a.b", "origin_server_ts": 1, "pdus": [event_seeds()[0].clone()], "edus": [{"edu_type": "m.typing", "content": {"room_id": "!r:x.y", "user_id": "@a:x.y", "typing": true}}, {"edu_type": "m.receipt", "content": {"!r:x.y": {"m.read": {"@a:x.y": {"data": {"ts": 1}, "event_ids": ["$e:x.y"]}}}}}, {"edu_type": "m.presence", "content": {"push": [{"user_id": "@a:x.y", "presence": "online", "last_active_ago": 1}]}}]}), vec!["txn"])],
         "http_resp_sync" => vec![http_seed("200", "/", vec![("content-type", "application/json")], json!({"next_batch": "s1", "rooms": {"join": {"!r:x.y": {"timeline": {"events": [event_seeds()[0].clone()], "limited": true, "prev_batch": "p"}, "state": {"events": [event_seeds()[1].clone()]}, "ephemeral": {"events": [event_seeds()[5].clone()]}, "unread_notifications": {"highlight_count": 1}}}, "invite": {"!i:x.y": {"invite_state": {"events": [{"type": "m.room.name", "state_key": "", "content": {"name": "n"}, "sender": "@a:x.y"}]}}}}, "to_device": {"events": [event_seeds()[7].clone()]}, "device_one_time_keys_count": {"signed_curve25519": 5}, "account_data": {"events": [event_seeds()[6].clone()]}}), vec![])],
+        "http_resp_fed_media" => vec![
+            http_seed_raw("200", "/", vec![("content-type", "multipart/mixed; boundary=abc")], b"\r\n--abc\r\nContent-Type: application/json\r\n\r\n{}\r\n--abc\r\nContent-Type: text/plain\r\nContent-Disposition: attachment; filename=\"f.txt\"\r\n\r\nsome plain text\r\n--abc--"),
+            http_seed_raw("200", "/", vec![("content-type", "multipart/mixed; boundary=abc")], b"--abc\nContent-Type: application/json\n\n{}\r\n--abc\nLocation: https://cdn.example/media\n\n\r\n--abc--\r\n"),
+        ],
         "http_resp_error" => vec![http_seed("429", "/", vec![("retry-after", "5")], json!({"errcode": "M_LIMIT_EXCEEDED", "error": "slow", "retry_after_ms": 2000}), vec![]), http_seed("403", "/", vec![], json!({"errcode": "M_FORBIDDEN", "error": "no"}), vec![]), http_seed("400", "/", vec![], json!({"errcode": "M_INCOMPATIBLE_ROOM_VERSION", "error": "x", "room_version": "7"}), vec![])],
         "hdr_content_disposition" => s(&["attachment; filename=\"a b.txt\"", "inline; filename*=utf-8''%e2%82%ac%20rates; filename=x", "form-data; name=x; filename=file.txt"]),
         "hdr_xmatrix" => s(&["X-Matrix origin=\"a.b:80\",destination=c.d,key=\"ed25519:k1\",sig=\"dGVzdA==\"", "X-Matrix key=\"ed25519:1\",origin=a.b,sig=dGVzdA"]),
@@ -201,7 +270,7 @@ const DICT: &[&[u8]] = &[b"\"", b"\\", b"{", b"}", b"[", b"]", b":", b",", b"\0"
 fn boundary_string(sel: u16) -> String {
     let lens = [0usize, 1, 254, 255, 256, 257, 258, 510, 511, 512, 513, 514, 1024, 65536];
     let l = lens[pick_idx(sel, lens.len())];
-    let ch = ["a", "é", ":", "/", "*"][(sel as usize) % 5];
+    let ch = ["a", "é", ":", "/", "*", "?"][(sel as usize) % 6];
     ch.repeat(l / ch.len().max(1))
 }
 
@@ -426,6 +495,7 @@ fn case_strategy() -> BoxedStrategy<WireCase> {
                     Ok(mut v) => {
                         let body: Vec<u8> = v["body"].as_array().map(|a| a.iter().filter_map(|x| x.as_u64()).map(|x| x as u8).collect()).unwrap_or_default();
                         match mode % 3 {
+                            0 if ep == "http_resp_fed_media" && hu => v["body"] = json!(mutate_multipart(&body, b"abc", &bops)),
                             0 => v["body"] = json!(mutate_bytes(&body, &body, &bops)),
                             1 => {
                                 let u = v["uri"].as_str().unwrap_or("").to_owned();
